@@ -27,7 +27,6 @@ THEOREMS = [
     'IblVerif.C11.duration_close_std',
     'IblVerif.C11.cbin_exposed',
     'IblVerif.C11.round_counterexample',
-    'IblVerif.C11.online_incomplete_meta_counterexample',
     'IblVerif.C11.offline_incomplete_meta_counterexample',
 ]
 RULE = ('real files on disk: (channels nc, dtype, sampling-rate text, announced fileTimeSecs text, k complete frames, r trailing '
@@ -37,14 +36,16 @@ RULE = ('real files on disk: (channels nc, dtype, sampling-rate text, announced 
         'adjusted) and the 277/385-channel imec fixtures, r boundary-biased (0, 1, half-1, half, half+1, frame-1, random), '
         'rates 30000/2500/30000.123456/2500.05/30003.0003/random fractional/1/2/0.5 (exact ties), sparse files up to 2^40 '
         'bytes, dtype int16/int32/int8, .cbin compressed with mtscomp under a .meta announcing fewer/more/equal samples, '
-        'OnlineReader on a growing file. A case is non-trivial when the file has >= 1 frame and disagrees with its meta data '
+        'OnlineReader on a growing file; the shipped recording-in-progress .meta (no fileTimeSecs/fileSizeBytes) under the '
+        'OnlineReader at every kind of size. A case is non-trivial when the file has >= 1 frame and disagrees with its meta data '
         '(trailing bytes or announced length != frames present); distinct by the whole case description')
 ASSUMPTIONS = [
     'the property is demanded for files with at least one complete frame (its own quantifier); sub-frame and empty files are '
     'still run through model and code (ns = 0 / "cannot mmap an empty file") but the oracle does not judge them',
-    'meta data that lack fileTimeSecs or fileSizeBytes (recording in progress / interrupted) are the recorded finding '
-    'incomplete-meta-keys: cases where the code subscripts an absent key are excluded from the generator and the oracle '
-    '(the model follows the code there: TypeError / KeyError; theorems *_incomplete_meta_counterexample)',
+    'known finding incomplete-meta-keys: the OFFLINE Reader on meta data without fileTimeSecs (recording in progress) raises '
+    'TypeError in Reader.ns; exactly that class (offline reader and fileTimeSecs absent) is excluded from the generator and the '
+    'oracle (the model follows the code: TypeError; theorem offline_incomplete_meta_counterexample). The ONLINE reader on such '
+    'meta data is inside the property and is generated and judged (any size, default and ignore_warnings=True)',
     'Reader(bin, nc=, ns=, fs=) without a .meta (flat mode) has no meta data to disagree with: modelled and compared '
     '(np.memmap refuses a too long map), not judged by the oracle',
     'duration: rl and the rewritten fileTimeSecs are compared with the model\'s float64 values with a tolerance of a quarter '
@@ -68,9 +69,8 @@ LEVEL_TEXT = ('Lean 4 theorems for every byte length, channel count, item size, 
               'one more frame would not, values are the row-major prefix, rl = ns/fs; the .cbin reader exposes the .ch sample '
               'count; the pre-fix formula provably fails; tied to the code by a differential run on real truncated files')
 LEVEL_NOTE = ('trusted: Lean kernel + Mathlib, standard model of float rounding (relates the R-theorems to IEEE arithmetic), the '
-              'Python correspondence harness, numpy.memmap / mtscomp behaviour as stated. Finding kept: meta data without '
-              'fileTimeSecs/fileSizeBytes (recording in progress) make Reader raise TypeError and OnlineReader raise KeyError '
-              'on any size with trailing bytes unless ignore_warnings=True')
+              'Python correspondence harness, numpy.memmap / mtscomp behaviour as stated. Finding kept: the offline Reader on meta '
+              'data without fileTimeSecs (recording in progress) raises TypeError in Reader.ns; OnlineReader opens them')
 TECHNIQUE = ('Lean 4 proof: Nat floor arithmetic (omega/simp) + real analysis of two roundings (Mathlib, linarith/nlinarith) over an '
              'abstract float interface instantiated with IEEE Float in the driver; exact differential run on real files')
 
@@ -231,16 +231,12 @@ def _scaled(sr, raw, cols=None):
 
 
 def _finding_key(c):
-    """the recorded finding: the code subscripts a key the (incomplete) meta data do not have"""
+    """the recorded finding: the OFFLINE reader on meta data without fileTimeSecs (recording in progress) raises
+    TypeError in Reader.ns (None * fs); the online reader opens such meta data and is judged like any other case"""
     if c['fmt'] == 'flat':
         return None
     if c['fts'] is None and c['reader'] == 'off':
-        return 'incomplete-meta-keys'          # TypeError: None * fs
-    if (c['fts'] is None or not c['hs']) and not c.get('iw') and c['fmt'] == 'bin':
-        # KeyError while the warning is formatted, when (and only when) sizes disagree
-        if c['reader'] == 'on':
-            return 'incomplete-meta-keys' if c['r'] != 0 else None
-        return 'incomplete-meta-keys'          # offline: excluded whether or not the announced size happens to agree
+        return 'incomplete-meta-keys'
     return None
 
 
@@ -315,25 +311,26 @@ def _random_cases(ctx, n):
 
 
 def _acquiring_cases(ctx, n):
-    """meta data of a recording in progress (no fileTimeSecs, no fileSizeBytes): the supported ways to open them"""
+    """meta data of a recording in progress (no fileTimeSecs, no fileSizeBytes; the repository's own fixture), read with
+    the online reader — the property's "recording still in progress" case: any size, default and ignored warnings"""
     rng = ctx.rng
     out = []
-    for _ in range(n):
-        k = int(rng.integers(1, 30))
-        frame = 770
-        if rng.random() < 0.5:     # online reader, warnings ignored: any size
-            r = int(rng.choice([0, 1, 384, 385, 386, 769, int(rng.integers(0, 770))]))
-            c = _case('acq', 385, '30000', k, k, r, 'on', rng.integers(1 << 31), iw=True, hs=False, has_fts=False)
-        else:                      # online reader, default flags, whole number of frames
-            c = _case('acq', 385, '30000', k, k, 0, 'on', rng.integers(1 << 31), iw=False, hs=False, has_fts=False)
-        if rng.random() < 0.3:
-            c['grow'] = int(rng.choice([frame, 2 * frame])) if not c['iw'] else int(rng.integers(1, 2 * frame))
+    frame = 770
+    for i in range(n):
+        k = int(rng.integers(1, 30)) if i % 7 else int(np.exp(rng.uniform(np.log(1e4), np.log(1e9))))
+        r = int(rng.choice([0, 1, 384, 385, 386, 769, int(rng.integers(0, 770)), int(rng.integers(0, 770))]))
+        c = _case('acq', 385, str(rng.choice(['30000', '30000.123456', '29999.757983'])), k, k, r, 'on',
+                  rng.integers(1 << 31), iw=bool(rng.random() < 0.3), hs=False, has_fts=False, sparse=bool(k > 1000))
+        if rng.random() < 0.4:
+            c['grow'] = int(rng.choice([1, frame - 1, frame, frame + 1, int(rng.integers(1, 3 * frame))]))
         out.append(c)
-    # offline reader: fileTimeSecs present, fileSizeBytes absent, warnings ignored
+    # meta data with only one of the two keys, both readers where the offline one can work (fileTimeSecs present)
     for _ in range(max(n // 3, 2)):
         k = int(rng.integers(1, 30))
         r = int(rng.choice([0, 1, 385, 769]))
-        out.append(_case('acq', 385, '30000', k + int(rng.integers(-1, 2)), k, r, 'off', rng.integers(1 << 31), iw=True, hs=False))
+        out.append(_case('acq', 385, '30000', k + int(rng.integers(-1, 2)), k, r, str(rng.choice(['off', 'on'])),
+                         rng.integers(1 << 31), iw=bool(rng.random() < 0.3), hs=False))
+        out.append(_case('acq', 385, '30000', k, k, r, 'on', rng.integers(1 << 31), hs=True, has_fts=False))
     return out
 
 
@@ -376,7 +373,7 @@ def _flat_cases(ctx, n):
 def _cases(ctx):
     cases = _box(ctx, (1, 2, 3, 4), (0, 1, 2, 3)) if ctx.quick else _box(ctx, (1, 2, 3, 4, 5, 6), (0, 1, 2, 3, 5))
     cases += _random_cases(ctx, ctx.n(900, 9000))
-    cases += _acquiring_cases(ctx, ctx.n(30, 200))
+    cases += _acquiring_cases(ctx, ctx.n(60, 400))
     cases += _cbin_cases(ctx, ctx.n(60, 500))
     cases += _flat_cases(ctx, ctx.n(60, 400))
     # edge rows of the model's error branches (zero rate; empty file) — never judged by the oracle
@@ -396,8 +393,7 @@ def _model_line(c, b):
     fts = '-' if c['fts'] is None else str(_bits(float(c['fts'])))
     if c['fmt'] == 'cbin':
         return f'cbin {c["nc"]} {_bits(float(c["fs"]))} {fts} {c["k"]} {c["nc"]}'
-    return (f'open {c["reader"]} {int(c["iw"])} {c["nc"]} {b.isz} {b.nbytes} {_bits(float(c["fs"]))} {fts} '
-            f'{int(c["hs"])}')
+    return f'open {c["reader"]} {c["nc"]} {b.isz} {b.nbytes} {_bits(float(c["fs"]))} {fts}'
 
 
 def _parse_model(ans):
@@ -717,28 +713,24 @@ def replay(ctx, rep):
 # ---------------------------------------------------------------------------------------------
 def known_findings(ctx):
     def demo():
-        """OnlineReader on the repository's own 'while acquiring' meta file, 10 frames + 400 trailing bytes -> KeyError;
-        offline Reader on the same meta -> TypeError.  The model must raise the same errors."""
+        """offline Reader on the repository's own 'while acquiring' meta file, 10 frames + 400 trailing bytes -> TypeError
+        (the model raises the same); the OnlineReader must open the same file (that part is judged by the oracle)."""
         logging.getLogger('ibllib').setLevel(logging.CRITICAL)
-        on = _case('acq', 385, '30000', 10, 10, 400, 'on', 1, iw=False, hs=False, has_fts=False)
         off = _case('acq', 385, '30000', 10, 10, 400, 'off', 2, iw=False, hs=False, has_fts=False)
-        got = []
-        for c in (on, off):
-            b = Built(c)
+        b = Built(off)
+        try:
             try:
-                try:
-                    sr = b.open()
-                    got.append('ok')
-                    sr.close()
-                except Exception as e:   # noqa
-                    got.append(_err(e))
-                line = _model_line(c, b)
-            finally:
-                b.cleanup()
-            try:
-                ans = ctx.lean([line])[0]
-                ctx.note(f'known finding incomplete-meta-keys (reader {c["reader"]}): code {got[-1]}, model {ans}')
+                sr = b.open()
+                got = 'ok'
+                sr.close()
             except Exception as e:   # noqa
-                ctx.note(f'known finding: model not run ({e})')
-        return got[0] == 'err KeyError' or got[1] == 'err TypeError'
+                got = _err(e)
+            line = _model_line(off, b)
+        finally:
+            b.cleanup()
+        try:
+            ctx.note(f'known finding incomplete-meta-keys (offline reader): code {got}, model {ctx.lean([line])[0]}')
+        except Exception as e:   # noqa
+            ctx.note(f'known finding: model not run ({e})')
+        return got == 'err TypeError'
     return {'incomplete-meta-keys': demo}
